@@ -622,8 +622,101 @@ def reused_conditions(case, rng):
     return violations, sessions[-1]
 
 
+def own_notification_inside(case, rng):
+    """the activity inside `until(n)` uses the same object n again inside the block - awaits it
+    directly (the await abandoned by another, earlier interrupt), guards an inner block with it
+    that is left early, lets a child wait for it that is cancelled: the block is still ended by
+    n, at the time n fires"""
+    import usim
+    from usim import time, until, Flag, Tracked, Scope, eternity
+    a, b, x = Flag(), Flag(), Tracked(0)
+    fire_at = rng.choice([5, 5, 6.5])
+    shape = rng.choice(['flag', 'or', 'and', 'cmp', 'date', 'moment', 'inverse'])
+    cond, to_true = {
+        'flag': (a, [(a, True)]),
+        'or': (a | b, [(b, True)]),
+        'and': (a & b, [(a, True), (b, True)]),
+        'cmp': (x > 3, [(x, 5)]),
+        'date': (time >= fire_at, []),
+        'moment': (time == fire_at, []),
+        'inverse': (~a, [(a, False)]),
+    }[shape]
+    uses = [rng.choice(['await-abandoned', 'inner-block-left', 'inner-block-failed',
+                        'child-cancelled', 'await-abandoned-by-flag', 'nested-twice'])
+            for _ in range(rng.randint(1, 3))]
+    log = []
+
+    class Leave(Exception):
+        pass
+
+    async def waits():
+        await cond
+
+    async def subject():
+        if shape == 'inverse':
+            await a.set(True)
+        other = Flag()
+        async with Scope() as scope:
+            scope.do(fire(), after=fire_at - time.now)
+            async with until(cond):
+                for use in uses:
+                    if use == 'await-abandoned':
+                        async with until(time + 1):
+                            await cond
+                    elif use == 'await-abandoned-by-flag':
+                        scope.do(other.set(), after=0.5)
+                        async with until(other):
+                            await cond
+                        await other.set(False)
+                    elif use == 'inner-block-left':
+                        async with until(cond):
+                            await (time + 0.5)
+                    elif use == 'inner-block-failed':
+                        try:
+                            async with until(cond):
+                                raise Leave
+                        except Leave:
+                            pass
+                    elif use == 'nested-twice':
+                        async with until(cond):
+                            async with until(time + 0.5):
+                                await cond
+                    else:
+                        task = scope.do(waits())
+                        await (time + 0.5)
+                        task.cancel()
+                    log.append(('used', use, time.now))
+                await (time + 20)
+                log.append(('body completed', time.now))
+            log.append(('block left', time.now))
+
+    async def fire():
+        for target, value in to_true:
+            await target.set(value)
+
+    sess = Session()
+    outcome = sess.run(subject())
+    violations = [dict(v) for v in sess.violations if v['mechanism'].startswith('kernel-')]
+    what = 'until(%s condition) whose body uses the same object again (%s)' % (shape, uses)
+    if outcome[0] != 'ok':
+        violations.append({'mechanism': 'c07:run-failed',
+                           'msg': '%s: run() ended with %r' % (what, outcome[1])})
+    elif log[-1] != ('block left', fire_at) or ('body completed', 20) in [
+            (entry[0], 20) for entry in log if entry[0] == 'body completed']:
+        violations.append({'mechanism': 'c07:wrong-block-end',
+                           'msg': '%s: the condition fires at %r, logged %s' % (
+                               what, fire_at, log)})
+    for vio in violations:
+        vio['case'] = dict(case)
+    return violations, sess
+
+
 def run_case(case):
     rng = random.Random('%s/%s/c07-kind' % (case['seed'], case['index']))
+    if case['index'] % 20 == 3:
+        violations, sess = own_notification_inside(case, rng)
+        return {'evals': 1, 'sigs': [sess.signature()], 'violations': violations, 'sample': None,
+                'stats': {'blocks_using_their_own_notification': 1, 'activations': sess.n}}
     if case['index'] % 20 == 13:
         violations, sess = reused_conditions(case, rng)
         return {'evals': 3, 'sigs': [sess.signature()], 'violations': violations, 'sample': None,
